@@ -1013,7 +1013,7 @@ def reformat(rnd, lines):
     for l in lines:
         raw = l.rstrip("\n")
         parts = raw.split(None, 2) if not raw.startswith(" ") else [""] + raw.split(None, 1)
-        if len(parts) < 2 or "FCC" in raw.upper():
+        if len(parts) < 2:
             out.append(l)
             continue
         lab = parts[0]
@@ -1021,6 +1021,11 @@ def reformat(rnd, lines):
         op = parts[2] if len(parts) > 2 else ""
         mn = rnd.choice([mn, mn.lower(), mn.capitalize()])
         ws = lambda: rnd.choice([" ", "  ", "\t", "    ", " \t "])      # noqa: E731
+        if "FCC" in raw.upper():
+            # a string directive: only the white space between the fields and the mnemonic case are varied; the
+            # delimited string is left as written and nothing is appended behind it (seed C18-4)
+            out.append(lab + ws() + mn + ws() + op + "\n")
+            continue
         cm = rnd.choice(["", " ; remark", "\t;x", " plain words here", " ;"]) if op else rnd.choice(["", " ; remark"])
         out.append(lab + ws() + mn + (ws() + op if op else "") + cm + "\n")
     return out
